@@ -67,7 +67,7 @@ Proof.
   rewrite <- (H (with_pos st mark) Hi). unfold bind_r.
   destruct (f (with_pos st mark)) as [[result| |] s1] eqn:E; try reflexivity.
   pose proof (Hk _ _ _ E) as H1. cbn in H1.
-  destruct (negb (truthy result)); [reflexivity|]. destruct (Nat.leb (pos s1) lm); [reflexivity|].
+  destruct (negb (truthy result)); [reflexivity|]. destruct (truthy lr && Nat.leb (pos s1) lm); [reflexivity|].
   apply IH; [exact H|exact Hk|]. cbn. rewrite H1. exact Hi.
 Qed.
 
